@@ -42,7 +42,7 @@ PROPS["C20"] = {
     "verus": ["stdext_groupingmap", "stdext_kmp"],
     "kani": [],
     "witness_always": ["stdext_groupingmap"],
-    "witness_bound": {"stdext_groupingmap": "scoped map: every history of length <= 6 over 2 keys x 2 values, both backing containers; KMP: every pattern of length <= 6 / text <= 11 over 2 letters and pattern <= 4 / text <= 8 over 3 letters; iter_all -> FromIterator replay: every history of length <= 4 x every continuation of length <= 2 + closing all groups, rebuilt map against the model of the original; interner under a constant hasher (all hashes collide): 36 words incl. empty and non-ASCII, interned twice in 36 rotations, key equality / resolve / get checked after every step"},
+    "witness_bound": {"stdext_groupingmap": "scoped map: every history of length <= 6 over 2 keys x 2 values, both backing containers; KMP: every pattern of length <= 6 / text <= 11 over 2 letters and pattern <= 4 / text <= 8 over 3 letters; iter_all -> FromIterator replay: every history of length <= 4 x every continuation of length <= 2 + closing all groups, rebuilt map against the model of the original; interner under a constant hasher (all hashes collide): 36 words incl. empty and non-ASCII, interned twice in 36 rotations, key equality / resolve / get checked after every step; every word three times in a row from the first call on, under the constant and the standard hasher (keys count up from 1)"},
     "unverified_callers": [
         "IterAll / FromIterator replay (GAT iterators, rejected by Verus) and the Interner (str/String): NOT proved, covered by the bounded driver only",
         "Tag::new / StaticTag uniqueness across threads - concurrency, not applicable to either verifier",
@@ -97,7 +97,7 @@ PROPS["C04"] = {
 }
 PROPS["C17"] = {
     "witness_always": ["tfm_fixword"],
-    "witness_bound": {"tfm_fixword": "compress: every non-empty subset of {0..11} x scale {1,3} x class limit 1..4 against brute-force minimal tolerance, and 25000 (thorough: 200000) pseudo-random multisets of up to 27 values (duplicates, negative values, zero, scales up to 2^26, the two ends of the fix_word range) x class limit 1..8 with the minimal tolerance found over all pairwise differences; next-larger: all 625 functional graphs on 4 characters; fix_word print/parse through the real PL reader, decomposed (the fraction digits depend only on |x| mod 2^20): every 7th (thorough: EVERY) fraction x 3 integer parts x both signs, every integer part 0..2047 x 4 fractions x both signs, and -2048.0; to_scaled: boundary lattice"},
+    "witness_bound": {"tfm_fixword": "compress: every non-empty subset of {0..11} x scale {1,3} x class limit 1..4 against brute-force minimal tolerance, and 25000 (thorough: 200000) pseudo-random multisets of up to 27 values (duplicates, negative values, zero, scales up to 2^26, the two ends of the fix_word range) x class limit 1..8 with the minimal tolerance found over all pairwise differences; next-larger: all 625 functional graphs on 4 characters; 16 hand-written forms of a real (repeated signs, missing integer part or fraction, seven-digit fractions at a rounding boundary) against PLtoTF 62-66; fix_word print/parse through the real PL reader, decomposed (the fraction digits depend only on |x| mod 2^20): every 7th (thorough: EVERY) fraction x 3 integer parts x both signs, every integer part 0..2047 x 4 fractions x both signs, and -2048.0; to_scaled: boundary lattice"},
     "level": "proof",
     "verus": ["tfm_fixword"],
     "kani": [],
